@@ -35,6 +35,11 @@ type Case struct {
 	// arbitrary bytes survive.
 	InQ string `json:"in"`
 	SQ  string `json:"s,omitempty"`
+	// PredQ: the inputs (Go-quoted, oldest first) that the same worker had
+	// passed to the library right before this case, recorded only when a
+	// violation is reported by a check that declares history inputs (Spice).
+	// A probe or replay that finds PredQ makes those calls first.
+	PredQ []string `json:"pred,omitempty"`
 }
 
 func (c *Case) Pack() {
@@ -133,6 +138,15 @@ type Check struct {
 	ProbeBudget time.Duration
 	// Explain prints both sides of the comparison for replay.
 	Explain func(c Case) string
+	// Spice / SpiceCall: a fixed list of inputs that leave the scanner in its
+	// less usual states (ends inside a construct, a positive verdict, ...) and
+	// the public entry point to feed them to. Every worker feeds two of them,
+	// results ignored, before every 61st case, so that the monitored calls are
+	// made after a varied history and not only after their own kind. A
+	// violation that a lone call in a fresh process does not show is probed
+	// again after the recorded predecessor calls.
+	Spice     []string
+	SpiceCall func(s string)
 }
 
 // Report is what a runner process hands to the driver.
@@ -194,6 +208,51 @@ type Worker struct {
 	gen      string
 	cur      Case
 	Local    map[string]interface{}
+	nDo      uint64
+	spiceIdx int
+	recent   [6]string // inputs most recently passed to the library by this worker
+	nRecent  int
+	noSpice  bool
+}
+
+func (w *Worker) remember(s string) {
+	if len(s) > 1<<16 {
+		return
+	}
+	w.recent[w.nRecent%len(w.recent)] = s
+	w.nRecent++
+}
+
+func (w *Worker) predecessors() []string {
+	var out []string
+	n := len(w.recent)
+	for i := w.nRecent - n; i < w.nRecent; i++ {
+		if i < 0 {
+			continue
+		}
+		out = append(out, strconv.Quote(w.recent[i%n]))
+	}
+	return out
+}
+
+func (w *Worker) spice() {
+	ch := w.R.Check
+	if w.noSpice || ch.SpiceCall == nil || len(ch.Spice) == 0 {
+		return
+	}
+	w.nDo++
+	if w.nDo%61 != 0 {
+		return
+	}
+	for j := 0; j < 2; j++ {
+		s := ch.Spice[(w.spiceIdx+w.ID*7)%len(ch.Spice)]
+		w.spiceIdx++
+		w.remember(s)
+		func() {
+			defer func() { recover() }()
+			ch.SpiceCall(s)
+		}()
+	}
 }
 
 func (w *Worker) Eval(n int) { w.evals += uint64(n) }
@@ -253,6 +312,9 @@ func (w *Worker) Violate(kind string, detail string) {
 	c := w.cur
 	if len(detail) > 1500 {
 		detail = detail[:1500] + "…"
+	}
+	if w.R.Check.SpiceCall != nil && !w.noSpice && c.PredQ == nil {
+		c.PredQ = w.predecessors()
 	}
 	w.viols = append(w.viols, Violation{Property: w.R.Check.ID, Kind: kind, Case: c, Detail: detail, Gen: w.gen})
 }
@@ -348,6 +410,7 @@ func decodeSlot(b []byte) (Case, bool) {
 
 // Do runs the monitor on one case: journal, progress stamp, panic capture.
 func (w *Worker) Do(c Case) {
+	w.spice()
 	w.journal(&c)
 	w.curLen.Store(int64(len(c.In) + len(c.S)))
 	w.seq.Add(1)
@@ -355,6 +418,9 @@ func (w *Worker) Do(c Case) {
 	w.cur = c
 	defer func() {
 		w.idle.Store(true)
+		if w.R.Check.SpiceCall != nil {
+			w.remember(c.In)
+		}
 		if r := recover(); r != nil {
 			st := string(debug.Stack())
 			if len(st) > 1200 {
